@@ -29,6 +29,14 @@ def scenarios(rng, tier):
                 elif tblcase == 'other_seq': s.op('st_add 0', hx(M), gen, (seq + 1) % 65536)
                 elif tblcase == 'other_gen': s.op('st_add 0', hx(M), (gen + 1) % 65536, seq)
                 s.classify(0, discover(M, gen=gen, seq=seq, stations=st), fill=rng.choice(['00', 'ff', '10']))
+    # the list holds addresses one octet away from the own one (not an acknowledgement), with and without the own one after them
+    for p_ in range(6):
+        for withown in (False, True):
+            for tblcase in ('none', 'same'):
+                start('twin_p%d_%d_%s' % (p_, withown, tblcase))
+                st = [mac(1000), twin(own, p_), twin(own, (p_ + 1) % 6, 0x01)] + ([own] if withown else [])
+                if tblcase == 'same': s.op('st_add 0', hx(twin(M, p_)), 5, 6)        # a session of a mapper one octet away from this one
+                s.classify(0, discover(M, gen=5, seq=6, stations=st), fill='00')
     # declared count exceeds what the frame holds; own address only behind the received length
     for declared in (1, 2, 5, 240, 241, 0x7FFF, 0xFFFF):
         for held in (0, 1, 3):
